@@ -69,7 +69,7 @@ static void crash_func(const char *errpath, char *out, size_t n)
     char line[1024]; int shown = 0;
     while (fgets(line, sizeof line, f)) {
         if (shown < 14 && (strstr(line, "ERROR") || strstr(line, "runtime error") || (strchr(line, '#') && strstr(line, " in ")))) { printf("INFO asan: %s", line); shown++; }
-        char *in = strstr(line, " in "), *rp = strstr(line, "/repo/");
+        char *in = strstr(line, " in "), *rp = strstr(line, "/hdf/src/") ? strstr(line, "/hdf/src/") : strstr(line, "/mfhdf/");
         if (line[0] == ' ' && strchr(line, '#') && in && rp && strcmp(out, "unknown") == 0) { char fn[128]; if (sscanf(in + 4, "%127s", fn) == 1) snprintf(out, n, "%s", fn); }
         if (strstr(line, "runtime error")) { char *c = strrchr(line, '/'); (void)c; }
     }
